@@ -1154,7 +1154,7 @@ func main() {
 	run.CheckFn = "Hdr.check"
 	run.DiagFn = "Hdr.diag"
 	run.CaseType = "Hdr.case"
-	run.ShardSize = 250
+	run.ShardSize = 160
 	run.Rule = "per layer (hop, info, meta, scion.Raw, scion.Decoded, one-hop, EPIC, empty, SCION header with " +
 		"every path and address type, UDP, SCMP + every message, HBH/E2E with TLV options, SPAO, ParseAddr/PackAddr): " +
 		"enc = generated field values (mostly well-formed, some outside the wire format) through the real SerializeTo " +
@@ -1169,7 +1169,7 @@ func main() {
 	}
 
 	// 1. encoder direction
-	nEnc := run.Count(1400, 60000)
+	nEnc := run.Count(1200, 60000)
 	for i := 0; i < nEnc; i++ {
 		r := rng.Fork(uint64(i))
 		rn.encCase(r, r.Intn(nKinds))
@@ -1258,6 +1258,36 @@ func main() {
 			for cut := 0; cut < len(bs); cut++ {
 				rn.decCase(lay, id, bs[:cut], "truncated", false)
 			}
+		}
+	}
+	// 4. boundary path sizes: 63/64 hops are accepted, 65 and more are rejected
+	for j, sl := range [][3]uint8{{63, 1, 0}, {21, 21, 22}, {62, 1, 0}, {63, 2, 0}, {63, 63, 63}, {64, 0, 0},
+		{64, 1, 0}, {0, 0, 1}, {1, 0, 1}, {0, 0, 0}} {
+		r := rng.Fork(uint64(3_000_000 + j))
+		d := &scion.Decoded{}
+		d.PathMeta.SegLen = sl
+		for i := 0; i < 3; i++ {
+			if sl[i] > 0 {
+				d.NumINF = i + 1
+			}
+			d.NumHops += int(sl[i])
+		}
+		d.InfoFields = make([]path.InfoField, d.NumINF)
+		for i := range d.InfoFields {
+			d.InfoFields[i] = genInfo(r)
+		}
+		d.HopFields = make([]path.HopField, d.NumHops)
+		for i := range d.HopFields {
+			d.HopFields[i] = genHop(r)
+		}
+		bs := make([]byte, d.Len())
+		if err := d.SerializeTo(bs); err != nil {
+			panic(err)
+		}
+		bs = append(bs, r.Bytes(2)...)
+		rn.decCase("Hdr.LRaw", 0, bs, "boundary", true)
+		if j < 2 || d.NumHops > 64 || d.NumHops < 3 {
+			rn.decCase("Hdr.LDec", 0, bs, "boundary", true)
 		}
 	}
 	run.Finish()
